@@ -19,6 +19,14 @@ pub use proptest;
 pub const VERIF_DIR: &str = "/verif";
 pub const SHARDS: u64 = 16;
 
+/// Multiplier applied to every quick-tier case count (set per property by the binaries so that each
+/// quick check does a fixed, substantial amount of work: roughly 15-40 s on 16 cores).
+pub static QUICK_SCALE: std::sync::atomic::AtomicU64 = std::sync::atomic::AtomicU64::new(1);
+
+pub fn set_quick_scale(k: u64) {
+    QUICK_SCALE.store(k.max(1), std::sync::atomic::Ordering::Relaxed);
+}
+
 #[derive(Clone, Copy, Debug, PartialEq, Eq)]
 pub enum Tier {
     Quick,
@@ -35,7 +43,7 @@ impl Tier {
     /// Case-count helper: `quick` cases in the quick tier, `thorough` otherwise.
     pub fn pick(self, quick: u64, thorough: u64) -> u64 {
         match self {
-            Tier::Quick => quick,
+            Tier::Quick => quick.saturating_mul(QUICK_SCALE.load(std::sync::atomic::Ordering::Relaxed)).min(thorough.max(quick)),
             Tier::Thorough => thorough,
         }
     }
@@ -451,6 +459,9 @@ impl Ctx {
     where
         C: Clone + std::fmt::Debug + Hash + Serialize + DeserializeOwned + Send + Sync,
     {
+        if std::env::var("VERIF_ONLY_PART").map(|p| p != part).unwrap_or(false) {
+            return;
+        }
         if let Some(r) = self.replay.clone() {
             if r.part != part {
                 return;
